@@ -806,3 +806,35 @@ def check_nesting_flag(ctx, rep):
             else:
                 rep.bad("T-NEST", "T-NEST:" + key, b.where(bi), "%s passes %r to zinc_encode, expected %s: a nested grid would be written without / with stray << >>" % (b.short.split("::")[-1], flag, exp))
     return n
+
+
+def check_column_layout(ctx, rep):
+    """a grid column is written as name [space meta-tags]: every path from the name to the meta tags writes the space"""
+    prog = ctx.prog
+    from vlib.dataflow import must_pass
+
+    w = find_writer(prog, "grid::Column")
+    if w is None:
+        rep.gap("Column writer", "-", "not found")
+        return 0
+    name = meta = None
+    spaces = []
+    for bi, t in w.calls():
+        nm = strip_generics(mir.callee_name(t) or "")
+        if nm.endswith("encode::write_str") and ".name" in repr(G.describe(w, t["args"][1])):
+            name = bi
+        elif nm.endswith("encode::write_dict_tags"):
+            meta = bi
+        elif nm == "std::io::Write::write_all":
+            v = G.describe(w, t["args"][1])
+            if v.kind == "conststr" and v.v == " ":
+                spaces.append(bi)
+    if name is None or meta is None:
+        rep.gap("Column writer layout", w.where(), "name=%s meta=%s" % (name, meta))
+        return 0
+    ok, path = must_pass(w, [name], meta, spaces)
+    if ok:
+        rep.ok("T-LAYOUT", "column:space-between-name-and-meta", w.where(meta), "every path from the column name to its meta tags writes a space first")
+    else:
+        rep.bad("T-LAYOUT", "T-LAYOUT:column:space-between-name-and-meta", w.where(meta), "column meta follows the column name without a separating space: the reader sees one long identifier / rejects the line")
+    return 1
